@@ -120,4 +120,12 @@ VARIANTS = [
          old='r"(flops|size|write|combo|limit)-*(\\d*)"', new='r"(combo|limit)(?:-(\\d)*)?"', expect=("C09-FACTOR", "pattern")),
     dict(name="twin: weight pattern with + and an optional group", kind="twin", file=BASIC,
          old='r"(flops|size|write|combo|limit)-*(\\d*)"', new='r"(flops|size|write|combo|limit)-*([0-9]*)"'),
+    dict(name="seed C09_7: outer products silently not searched for the size-based objectives", kind="break", file=BASIC,
+         old="        compute_con_cost = parse_minimize_for_optimal(minimize)\n\n        nterms = len(where)", new="        compute_con_cost = parse_minimize_for_optimal(minimize)\n        if minimize in (\"size\", \"write\"):\n            search_outer = False\n\n        nterms = len(where)", expect=("C09-OPTIONS", "search_outer")),
+    dict(name="twin: the objective's spelling is normalised before it is parsed", kind="twin", file=BASIC,
+         old="        compute_con_cost = parse_minimize_for_optimal(minimize)\n\n        nterms = len(where)", new="        minimize = str(minimize)\n        compute_con_cost = parse_minimize_for_optimal(minimize)\n\n        nterms = len(where)"),
+    dict(name="seed C09_6: batch-index detection counts the output as a tensor", kind="break", file=BASIC,
+         old="            if len(ix_nodes) >= len(self.nodes):", new="            if self.appearances[ix] >= len(self.nodes):", expect=("C09-PRESIMP", "batch")),
+    dict(name="twin: batch-index detection through the edge table", kind="twin", file=BASIC,
+         old="            if len(ix_nodes) >= len(self.nodes):", new="            if len(self.edges[ix]) == len(self.nodes):"),
 ]
